@@ -129,6 +129,7 @@ def option_sets():
         "quote_entities": st.booleans(),
         "indent": st.booleans(),
         "indent_cells": st.booleans(),
+        "row_containers": st.sampled_from(["none", "none", "header", "group", "all"]),
         "deflate": st.booleans(),
         "bare_empty": st.booleans(),
     })
@@ -646,6 +647,9 @@ for _name in ("col_runs", "row_runs", "ws_all", "ws_runs_whole", "paragraphs", "
     CORPUS.append(_table_case([_T], **{_name: True}))
 for _name in ("value_type", "ws_count", "deflate"):
     CORPUS.append(_table_case([_T], **{_name: False}))
+for _containers in ("header", "group", "all"):
+    CORPUS.append(_table_case([_T], row_containers=_containers))
+    CORPUS.append(_table_case([_T, [["a"], ["b"], ["c"], ["d"], ["e"]]], row_containers=_containers, row_runs=True))
 CORPUS.append(_table_case([_T], indent=True, indent_cells=True))
 CORPUS.append(_table_case([_T], indent=True, indent_cells=True, paragraphs=True))
 for _mode in ("whole", "alt", "nested"):
